@@ -17,6 +17,9 @@ observation must be one of them (for inner-join trees they coincide - theorem).
   n-way     chains and stars of 3-4 sources with inner links (order independence), same key name;
             three-source stars anchored at the left table with INNER/LEFT link mixes (C05alg: inner_star_comm,
             left_star_comm; the mixed star is evaluated per instance), 1- and 2-column keys
+            every pure-INNER tree / star: the premises of the n-ary order-independence theorem (Props/C05nary.v,
+            nary_premises) are evaluated, every plan (link order x orientation) is compared with the comprehension
+            all_matches; premises true + disagreement = violation nary-contradiction
 Known-defect domains are decidable predicates on the request (join type, key names, key arity, framework relation, null
 keys).  Where the recorded defect is a function of the spec result (MODEL_CHK: PyArrow key-column handling, Pandas null
 keys, LEFT/RIGHT roles exchanged) or a specific error (RAISE_PAT) the observation must equal that defect model (evaluated
@@ -117,6 +120,25 @@ Definition flip_join : joinfn := fun jt => rel_join (flip_jt jt).
 Definition chk_join_flipped (c : case) : bool := chk_join c || chk_join_with flip_join c.
 """
 CASE_TY = "case"
+# n-ary order independence (Props/C05nary.v: join_in_order_independent, nary_plan_all_matches).  The theorem's premises are
+# EVALUATED on every generated inner tree / star (RelNary.nary_premises: uniform tables, INNER links with keys in the schemas,
+# tree certified by cuts, n-ary overlap discipline), not assumed:
+#   nary_prem        the premises hold for the request's tables and links
+#   chk_same_fn      the executor the theorem is about (Spec/RelNary.v) computes the same tables as the copy above
+#   chk_nary         premises => chk_order_independent, and every plan (link order x orientation) = the comprehension
+# premises true and chk_nary false would contradict the theorem: violation `nary-contradiction`.
+REQ_NARY = REQ + ["MV.Spec.RelNary"]
+EXTRA_NARY = EXTRA + """
+Fixpoint tbl_eqb (a b : table) : bool :=
+  match a, b with [], [] => true | x :: a', y :: b' => row_eqb x y && tbl_eqb a' b' | _, _ => false end.
+Definition nary_prem (c : case) : bool := match c with ((ts, ls, _), _) => RelNary.nary_premises ts ls end.
+Definition chk_same_fn (c : case) : bool :=
+  match c with ((ts, ls, orders), _) => forallb (fun o => tbl_eqb (join_in_order ts ls o) (RelNary.join_in_order ts ls o)) orders end.
+Definition chk_all_plans (c : case) : bool :=
+  match c with ((ts, ls, _), _) =>
+    forallb (fun p => bag_eqb (RelNary.run_plan ts ls p) (RelNary.all_matches ts ls)) (RelNary.all_plans (List.length ls)) end.
+Definition chk_nary (c : case) : bool := chk_same_fn c && (negb (nary_prem c) || (chk_order_independent c && chk_all_plans c)).
+"""
 JT = {"INNER": "JInner", "LEFT": "JLeft", "RIGHT": "JRight", "OUTER": "JOuter", "APPEND": "JAppend", "UNION": "JUnion"}
 
 # known-defect domains whose recorded defect is a FUNCTION of the spec result: (checker that accepts the defect model or the
@@ -568,8 +590,10 @@ def run(rep: vlib.Reporter, tier: str, seed: int) -> None:
     rep.proof(pr2)
     pr3 = vlib.build_props("RoutingJ")        # registry lookups with the merge relation, JoinStep routing, find_leftmost terminates
     rep.proof(pr3)
-    pr.ok = pr.ok and pr2.ok and pr3.ok
-    pr.failed_files += pr2.failed_files + pr3.failed_files
+    pr4 = vlib.build_props("C05nary")         # n-ary inner-join trees: every plan = the comprehension (order independence)
+    rep.proof(pr4)
+    pr.ok = pr.ok and pr2.ok and pr3.ok and pr4.ok
+    pr.failed_files += pr2.failed_files + pr3.failed_files + pr4.failed_files
     rep.coverage["trusted_base"] += [
         "Spec/Rel.v (rel_join) is the relational specification and the oracle of record (evaluated by vm_compute)",
         "Model/RoutingJ.v is a hand-written model of the run-time side of joins (registry lookups with cfw_merge_relation / "
@@ -618,6 +642,28 @@ def run(rep: vlib.Reporter, tier: str, seed: int) -> None:
             continue
         rep.finding(f"spec-order:{json.dumps(trees[k], sort_keys=True)}", "rel_join over an inner-link tree / a left star depends on the "
                     "application order (contradicts the associativity theorems)", {"kind": "spec", "spec": trees[k]})
+        found = True
+    # n-ary theorem (Props/C05nary.v): premises evaluated on every pure-INNER tree / star; premises + order dependence (or a
+    # plan different from the comprehension, or the two executor copies disagreeing) contradicts the theorem
+    inner_k = [k for k, s in enumerate(trees) if all(l["jt"] == "INNER" for l in s["links"])]
+    nary_terms = [tree_terms[k] for k in inner_k]
+    prem_false, _ = vlib.run_cases("C05", "nary_prem", REQ_NARY, "nary_prem", nary_terms, extra_defs=EXTRA_NARY, case_type=CASE_TY, shard=60) \
+        if nary_terms else ([], {})
+    bad_nary, info_nary = vlib.run_cases("C05", "nary", REQ_NARY, "chk_nary", nary_terms, extra_defs=EXTRA_NARY, case_type=CASE_TY, shard=60) \
+        if nary_terms else ([], {})
+    dist["nary"] = {"inner_trees_and_stars": len(inner_k), "premises_true": len(inner_k) - len(prem_false),
+                    "premises_false": len(prem_false), "contradictions": len(bad_nary), "coq_eval_s": info_nary.get("coq_eval_s"),
+                    "plans_per_tree": "all link orders x all orientations (n-1)! * 2^(n-1), each compared with all_matches"}
+    for j in bad_nary[:3]:
+        rep.finding(f"nary-contradiction:{json.dumps(trees[inner_k[j]], sort_keys=True)}",
+                    "an inner-join tree satisfies nary_premises but its plans do not all compute all_matches / the link orders "
+                    "disagree / the executor of Spec/RelNary.v differs from the harness copy (contradicts Props/C05nary.v)",
+                    {"kind": "spec", "spec": trees[inner_k[j]]})
+        found = True
+    for j in prem_false[:3]:
+        rep.finding(f"nary-premises-false:{json.dumps(trees[inner_k[j]], sort_keys=True)}",
+                    "a generated pure-INNER tree / star does not satisfy nary_premises (uniform tables, keys in schemas, tree cuts, "
+                    "overlap discipline): the order-independence theorem would be vacuous for it", {"kind": "spec", "spec": trees[inner_k[j]]})
         found = True
     # T2 routing with joins: footprints of every run (all domains); consumer table where the request is outside every defect domain
     rt_idx = [i for i, r in enumerate(recs) if r.get("route")]
